@@ -22,6 +22,10 @@ C17, growth round 6: the boundary of the Itoh condition, orientation symmetry, a
   whose two parts touch only across the seam the periodic call recovers the truth up to ONE
   constant, the bounded call up to two different ones (so a bounded run that silently used the
   periodic pairs, or the reverse, is a different function).
+* `find_depth_le_rank` — after ANY unions the walk to the root takes at most `rank[root] − rank[x]`
+  hops (tree height ≤ largest rank).
+* `call_valid_mod` — the public entry point, EVERY input: result − input ∈ 2πℤ + one constant.
+* `session_wrap_flip` — `wrap_flip_agree` inside any history of calls, either call first.
 -/
 namespace QuantemModel.Props.C17
 open QuantemModel QuantemModel.Unwrap QuantemModel.Unwrap.UF
@@ -300,5 +304,170 @@ example : ∃ (φ w : Nat → ℝ) (n : Nat → ℤ),
     intro p hp
     simp only [List.mem_cons, List.mem_nil_iff, or_false] at hp
     rcases hp with rfl | rfl | rfl | rfl | rfl | rfl | rfl | rfl <;> norm_num
+
+/-! ## 13. Tree height, the public entry point for every input, `wrap_around` flipped inside a history -/
+
+/-- ranks never decrease on the way to the root -/
+theorem findAux_rank_le {u : UF} {N : Nat} (hwf : WF u N) : ∀ (fuel z : Nat) (acc : Int) (r : Nat) (t : Int),
+    z < N → u.findAux fuel z acc = some (r, t) → u.rk z ≤ u.rk r := by
+  intro fuel
+  induction fuel with
+  | zero => intro z acc r t _ h; simp [findAux] at h
+  | succ k ih =>
+    intro z acc r t hz h
+    rw [findAux_succ] at h
+    by_cases hp : u.par z = z
+    · simp only [ne_eq, hp, not_true_eq_false, if_false, Option.some.injEq, Prod.mk.injEq] at h
+      obtain ⟨rfl, _⟩ := h
+      exact Nat.le_refl _
+    · simp only [ne_eq, hp, not_false_eq_true, if_true] at h
+      have h1 := ih _ _ _ _ (hwf.lt z hz) h
+      have h2 := hwf.rank_lt z hz hp
+      omega
+
+/-- the walk from `z` to its root `r` needs at most `rk r − rk z` hops -/
+theorem findAux_within_rank {u : UF} {N : Nat} (hwf : WF u N) : ∀ (fuel z : Nat) (acc : Int) (r : Nat) (t : Int),
+    z < N → u.findAux fuel z acc = some (r, t) → u.findAux (u.rk r - u.rk z + 1) z acc = some (r, t) := by
+  intro fuel
+  induction fuel with
+  | zero => intro z acc r t _ h; simp [findAux] at h
+  | succ k ih =>
+    intro z acc r t hz h
+    rw [findAux_succ] at h
+    rw [findAux_succ]
+    by_cases hp : u.par z = z
+    · simpa [hp] using h
+    · simp only [ne_eq, hp, not_false_eq_true, if_true] at h ⊢
+      have h1 := ih _ _ _ _ (hwf.lt z hz) h
+      have h2 := hwf.rank_lt z hz hp
+      have h3 := findAux_rank_le hwf _ _ _ _ _ (hwf.lt z hz) h
+      have e : u.rk r - u.rk z = (u.rk r - u.rk (u.par z) + 1) + (u.rk r - u.rk z - (u.rk r - u.rk (u.par z) + 1)) := by
+        omega
+      rw [e]
+      exact findAux_mono' u _ _ _ _ _ h1
+
+/-- **Tree height ≤ rank** (what union by rank WITHOUT path compression buys, and what any
+vectorised replacement of the per-pixel walk in `_final_offsets` may rely on): after the unions of
+ANY edge list, `find_root_and_offset(x)` reaches the root `r` of `x` after at most
+`rank[r] − rank[x]` parent hops (`+ 1` loop tests), so no walk is longer than the largest rank;
+the accumulated offset is the sum over exactly those hops. -/
+theorem find_depth_le_rank (N : Nat) (es : List Edge) (hin : ∀ e ∈ es, e.i1 < N ∧ e.i2 < N) :
+    ∃ u, unionAll (UF.init N) es = some u ∧
+      ∀ x, x < N → ∃ r t, u.find x = some (r, t) ∧ u.rk x ≤ u.rk r ∧
+        u.findAux (u.rk r - u.rk x + 1) x 0 = some (r, t) := by
+  obtain ⟨u, hu, hwf, hfind⟩ := find_terminates N es hin
+  refine ⟨u, hu, fun x hx => ?_⟩
+  obtain ⟨r, t, h, _, _⟩ := hfind x hx
+  exact ⟨r, t, h, findAux_rank_le hwf _ _ _ _ _ hx h, findAux_within_rank hwf _ _ _ _ _ hx h⟩
+
+/-- executed: a chain of four unions builds a tree of height 2 = its largest rank; pixel 3 is two
+hops from the root 0 and its offset is the sum over both hops -/
+example : ((unionAll (UF.init 4) [⟨0, 1, 1⟩, ⟨2, 3, -1⟩, ⟨1, 3, 2⟩]).map fun u =>
+    (u.rank.toList, u.find 3, u.findAux 3 3 0, u.findAux 2 3 0)) = some ([2, 0, 1, 0], some (0, -3), some (0, -3), none) := by
+  decide
+
+/-- **The second clause of the property at the public entry point, for EVERY input** (no smoothness,
+any stored values, any mask values, bounded or periodic, merge order handed in or the model's own
+sort with any function in the place of `_wrap_to_pi`): a well-formed call never raises, returns
+`H*W` values, and the result differs from the input by integer multiples of `2π` plus one single
+constant.  (Front end `validateWorker` + core `unwrap_mod`, composed.) -/
+theorem call_valid_mod (half : ℝ) (wrapf : ℝ → ℝ) (c : Call ℝ) (H W : Nat) (hwf : WellFormed c H W) :
+    ∃ (out : List ℝ) (k : Nat → ℤ) (c0 : ℝ), callOutcome half wrapf c = .unwrapped out ∧ out.length = H * W ∧
+      ∀ i, i < H * W → out.getD i 0 - c.phi i = 2 * half * (k i : ℝ) - c0 := by
+  obtain ⟨meth, shape, phi, mask, wrap, order⟩ := c
+  obtain ⟨hm, hs, hmask, hord⟩ := hwf
+  simp only at hm hs hmask hord
+  subst hm hs
+  have hval : validateWorker [H, W] mask wrap = .ok (H, W, effMask mask) := by
+    cases mask with
+    | none => rfl
+    | some m =>
+      obtain ⟨ms, mv⟩ := m
+      have : ms = [H, W] := hmask ⟨ms, mv⟩ rfl
+      subst this
+      exact validateWorker_full H W mv wrap
+  cases order with
+  | some o =>
+    have hin : ∀ p ∈ o, p.1 < H * W ∧ p.2 < H * W :=
+      fun p hp => maskedPairs_lt H W (effMask mask) wrap p ((hord o rfl).mem_iff.mp hp)
+    obtain ⟨out, k, c0, h1, h2, h3⟩ := unwrap_mod half (H * W) phi o hin
+    refine ⟨out, k, c0, ?_, h2, h3⟩
+    simp [callOutcome, hval, unwrapPhase2d, h1]
+  | none =>
+    have hin : ∀ p ∈ sortedPairs wrapf H W phi (effMask mask) wrap, p.1 < H * W ∧ p.2 < H * W := by
+      intro p hp
+      unfold sortedPairs sortPairs at hp
+      exact maskedPairs_lt H W (effMask mask) wrap p ((List.mergeSort_perm _ _).mem_iff.mp hp)
+    obtain ⟨out, k, c0, h1, h2, h3⟩ := unwrap_mod half (H * W) phi _ hin
+    refine ⟨out, k, c0, ?_, h2, h3⟩
+    simp [callOutcome, hval, unwrapPhase2d, h1]
+
+/-- **`wrap_around` flipped between two calls of one history.**  In ANY history of calls on the
+module (valid and rejected ones, any number, any order) that contains, at positions `i` and `j` —
+`i < j` or `j < i` —, two well-formed calls on the same `H × W` grid with the same stored phase and
+the same mask, one with `wrap_around=True` and one with `wrap_around=False`: if the stored phase
+is the wrapped truth inside the mask and the truth is Itoh on the periodic masked pairs, both
+calls return, and on every mask region of the bounded grid the two results differ by one
+constant.  (Nothing the periodic call computed — neighbour pairs, union–find, offsets — can show
+in the bounded call or the reverse; the harness runs such histories in both orders.) -/
+theorem session_wrap_flip (half : ℝ) (hh : 0 < half) (wrapf : ℝ → ℝ) (cs : List (Call ℝ)) (i j : Nat)
+    (cP cB : Call ℝ) (hi : cs[i]? = some cP) (hj : cs[j]? = some cB) (H W : Nat)
+    (hwfP : WellFormed cP H W) (hwfB : WellFormed cB H W)
+    (hP : cP.wrap = true) (hB : cB.wrap = false) (hphi : cB.phi = cP.phi) (hmask : cB.mask = cP.mask)
+    (φ : Nat → ℝ) (n : Nat → ℤ)
+    (hwrap : IsWrapOn half (fun i => i < H * W ∧ effMask cP.mask i = true) cP.phi φ n)
+    (hitoh : ∀ p ∈ maskedPairs H W (effMask cP.mask) true, |φ p.1 - φ p.2| < half) :
+    ∃ outP outB : List ℝ,
+      (runSession half wrapf cs)[i]? = some (.unwrapped outP) ∧
+      (runSession half wrapf cs)[j]? = some (.unwrapped outB) ∧
+      outP.length = H * W ∧ outB.length = H * W ∧
+      ∀ a b, a < H * W → b < H * W → Conn (maskedPairs H W (effMask cP.mask) false) a b →
+        outP.getD a 0 - outB.getD a 0 = outP.getD b 0 - outB.getD b 0 := by
+  have hitohB : ∀ p ∈ maskedPairs H W (effMask cB.mask) cB.wrap, |φ p.1 - φ p.2| < half := by
+    intro p hp
+    rw [hmask, hB] at hp
+    refine hitoh p ?_
+    unfold maskedPairs at hp ⊢
+    obtain ⟨h1, h2⟩ := List.mem_filter.mp hp
+    exact List.mem_filter.mpr ⟨bounded_pairs_subset_periodic H W _ h1, h2⟩
+  obtain ⟨outP, oP, lP, kP⟩ := call_valid_correct half hh wrapf cP H W hwfP φ n hwrap (by rw [hP]; exact hitoh)
+  obtain ⟨outB, oB, lB, kB⟩ := call_valid_correct half hh wrapf cB H W hwfB φ n (by rw [hmask, hphi]; exact hwrap) hitohB
+  refine ⟨outP, outB, by simp [runSession, hi, oP], by simp [runSession, hj, oB], lP, lB, fun a b ha hb hc => ?_⟩
+  have e1 := kP a b ha hb (by rw [hP]; exact bounded_region_within_periodic H W _ a b hc)
+  have e2 := kB a b ha hb (by rw [hmask, hB]; exact hc)
+  linarith
+
+/-- the hypotheses of `session_wrap_flip` (and `WellFormed` for `call_valid_mod`) are satisfiable by a
+field that really wraps: the periodic tent `0, 3/4, 3/2, 3/4` (·π) on a `1 × 4` grid, no mask, the model's
+own sort, once with `wrap_around=True` and once with `wrap_around=False` -/
+example : ∃ (cP cB : Call ℝ) (φ : Nat → ℝ) (n : Nat → ℤ), WellFormed cP 1 4 ∧ WellFormed cB 1 4 ∧
+    cP.wrap = true ∧ cB.wrap = false ∧ cB.phi = cP.phi ∧ cB.mask = cP.mask ∧
+    IsWrapOn 1 (fun i => i < 1 * 4 ∧ effMask cP.mask i = true) cP.phi φ n ∧
+    (∀ p ∈ maskedPairs 1 4 (effMask cP.mask) true, |φ p.1 - φ p.2| < 1) ∧ n 2 ≠ n 1 := by
+  refine ⟨⟨.reliabilitySorting, [1, 4], fun i => #[(0 : ℝ), 3/4, -1/2, 3/4].getD i 0, none, true, none⟩,
+    ⟨.reliabilitySorting, [1, 4], fun i => #[(0 : ℝ), 3/4, -1/2, 3/4].getD i 0, none, false, none⟩,
+    fun i => #[(0 : ℝ), 3/4, 3/2, 3/4].getD i 0, fun i => #[(0 : ℤ), 0, 1, 0].getD i 0,
+    ⟨rfl, rfl, fun m hm => (by cases hm), fun o ho => (by cases ho)⟩,
+    ⟨rfl, rfl, fun m hm => (by cases hm), fun o ho => (by cases ho)⟩, rfl, rfl, rfl, rfl, ?_, ?_, by decide⟩
+  · rintro i ⟨hi, _⟩
+    have : i = 0 ∨ i = 1 ∨ i = 2 ∨ i = 3 := by omega
+    rcases this with rfl | rfl | rfl | rfl <;> norm_num
+  · have hm : maskedPairs 1 4 (effMask none) true = [(0, 1), (1, 2), (2, 3), (3, 0), (0, 0), (1, 1), (2, 2), (3, 3)] := by decide
+    simp only [hm]
+    intro p hp
+    simp only [List.mem_cons, List.mem_nil_iff, or_false] at hp
+    rcases hp with rfl | rfl | rfl | rfl | rfl | rfl | rfl | rfl <;> norm_num
+
+/-- the executable session on that pair of calls, both orders (run at `Rat`, `half = 1`): the two results are
+equal here (the bounded grid is connected), and each equals the truth minus its mean -/
+example :
+    let φ : Nat → Rat := fun i => #[0, 3/4, -1/2, 3/4].getD i 0
+    (runSession (1 : Rat) wrapToPiRat [⟨.reliabilitySorting, [1, 4], φ, none, true, some [(3, 0), (1, 2), (0, 1), (2, 3), (0, 0), (1, 1), (2, 2), (3, 3)]⟩,
+        ⟨.reliabilitySorting, [1, 4], φ, none, false, some [(2, 3), (0, 1), (1, 2)]⟩]).map outcomeTag
+      = [("ok", some [-3/4, 0, 3/4, 0]), ("ok", some [-3/4, 0, 3/4, 0])] ∧
+    (runSession (1 : Rat) wrapToPiRat [⟨.reliabilitySorting, [1, 4], φ, none, false, some [(2, 3), (0, 1), (1, 2)]⟩,
+        ⟨.reliabilitySorting, [1, 4], φ, none, true, some [(3, 0), (1, 2), (0, 1), (2, 3), (0, 0), (1, 1), (2, 2), (3, 3)]⟩]).map outcomeTag
+      = [("ok", some [-3/4, 0, 3/4, 0]), ("ok", some [-3/4, 0, 3/4, 0])] := by
+  decide +kernel
 
 end QuantemModel.Props.C17
